@@ -1,5 +1,5 @@
-(* The finder with the proposed repair (findings/second_search_shortcut.diff): what it returns is a
-   matched pair, for both variants, whatever the second search did before the final walk. *)
+(* The finder as it is since 97589e3 (_maps_are_matched): what it returns is a matched pair, for both
+   variants, whatever the second search did before the final walk. *)
 From Coq Require Import ZArith List Bool Lia.
 From CSS Require Import Base.PyList Parallel.Model Parallel.Basics Parallel.First Parallel.Second Parallel.Matched.
 Import ListNotations.
@@ -31,26 +31,38 @@ Proof.
   inversion H; subst. eapply walk_matched; eauto.
 Qed.
 
-Theorem fixed_base_matched fuel wfuel d1 d2 :
-  find_base_fixed s1 s2 fuel wfuel = Found d1 d2 -> matched_pair s1 s2 d1 d2.
+Theorem find_base_matched fuel wfuel d1 d2 :
+  find_base s1 s2 fuel wfuel = Found d1 d2 -> matched_pair s1 s2 d1 d2.
 Proof.
-  unfold find_base_fixed. pose proof (first_search_sound s1 s2 fuel) as Hs.
+  unfold find_base. pose proof (first_search_sound s1 s2 fuel) as Hs.
   destruct (find s1 s2 fuel (s_root s1) (s_root s2) init_fstate) as [[[|] st]| |e'] eqn:E; try discriminate.
   apply checked_matched. eapply Hs; eauto.
 Qed.
 
-Theorem fixed_eq_matched fuel wfuel oracle d1 d2 asked :
-  find_eq_fixed s1 s2 fuel wfuel oracle = EOut (Found d1 d2) asked -> matched_pair s1 s2 d1 d2.
+Lemma path_checked_found m wfuel oracle o d1 d2 asked :
+  path_checked s1 s2 m wfuel oracle o = (Found d1 d2, asked) -> o = Found d1 d2.
 Proof.
-  unfold find_eq_fixed. pose proof (first_search_sound s1 s2 fuel) as Hs.
-  destruct (find s1 s2 fuel (s_root s1) (s_root s2) init_fstate) as [[[|] st]| |e'] eqn:E; try discriminate.
-  destruct (search_eq s1 s2 true (f_mi st) fuel oracle) as [o asked'] eqn:Es.
-  intros H. inversion H. eapply checked_matched; [eapply Hs; eauto|eassumption].
+  unfold path_checked. destruct o as [|e1 e2|c|]; try (intros H; inversion H; fail).
+  destruct (ewalk m wfuel [(s_root s1, s_root s2, (0%nat, 0%nat))] [] (mkE e1 e2 [] oracle [] [])) as [[[|] st]| |c];
+    intros H; inversion H; reflexivity.
 Qed.
 
-Theorem fixed_base_never_raises fuel wfuel e : find_base_fixed s1 s2 fuel wfuel <> Failed e.
+Theorem find_eq_matched pw fuel wfuel oracle woracle d1 d2 asked :
+  find_eq s1 s2 pw fuel wfuel oracle woracle = EOut (Found d1 d2) asked -> matched_pair s1 s2 d1 d2.
 Proof.
-  unfold find_base_fixed.
+  unfold find_eq. pose proof (first_search_sound s1 s2 fuel) as Hs.
+  destruct (find s1 s2 fuel (s_root s1) (s_root s2) init_fstate) as [[[|] st]| |e'] eqn:E; try discriminate.
+  destruct (search_eq s1 s2 true (f_mi st) fuel oracle) as [o asked'] eqn:Es.
+  assert (Hm : mi_sound s1 s2 (f_mi st)) by (eapply Hs; eauto).
+  destruct pw.
+  - destruct (path_checked s1 s2 (f_mi st) wfuel woracle (checked s1 s2 (f_mi st) wfuel o)) as [o2 asked2] eqn:Ep.
+    intros H. inversion H; subst. apply path_checked_found in Ep. eapply checked_matched; eauto.
+  - intros H. inversion H. eapply checked_matched; eauto.
+Qed.
+
+Theorem find_base_never_raises fuel wfuel e : find_base s1 s2 fuel wfuel <> Failed e.
+Proof.
+  unfold find_base.
   pose proof (first_search_never_raises s1 s2 fuel) as Hne.
   pose proof (first_search_sound s1 s2 fuel) as Hs.
   destruct (find s1 s2 fuel (s_root s1) (s_root s2) init_fstate) as [[[|] st]| |e'] eqn:E; try discriminate.
@@ -62,6 +74,18 @@ Proof.
       exfalso. eapply Hw; eauto.
     + exfalso. eapply A; eauto.
   - exfalso. eapply Hne; eauto.
+Qed.
+
+Theorem find_base_good fuel wfuel d1 d2 :
+  find_base s1 s2 fuel wfuel = Found d1 d2 -> sm_all (good s1) d1 /\ sm_all (good s2) d2.
+Proof.
+  unfold find_base. pose proof (first_search_sound s1 s2 fuel) as Hs.
+  destruct (find s1 s2 fuel (s_root s1) (s_root s2) init_fstate) as [[[|] st]| |e'] eqn:E; try discriminate.
+  assert (Hm : mi_sound s1 s2 (f_mi st)) by (eapply Hs; eauto).
+  destruct (search_base_ok s1 s2 (f_mi st) fuel Hm) as [_ A].
+  unfold checked. destruct (search_base s1 s2 (f_mi st) fuel) as [|e1 e2|c|] eqn:Es; try discriminate.
+  destruct (walk (f_mi st) e1 e2 wfuel [(s_root s1, s_root s2)] []) as [[[|] seen]| |c]; try discriminate.
+  intros H. inversion H; subst. apply A. reflexivity.
 Qed.
 
 End Fixed.
